@@ -67,7 +67,13 @@ def cases(draw):
 def _times(start, duration, cuts):
     end = start + duration
     times = [start + c * duration for c in cuts] + [end]
-    times = [t for i, t in enumerate(times) if (i == 0 and t > start) or (i > 0 and t > times[i - 1])]
+    # readouts closer together than the resolution of a double at this magnitude are not a sensible schedule
+    # (their absolute-time labels would coincide): keep cut points at least 1e-6 of the duration apart
+    kept = []
+    for t in times:
+        if t > start + 1e-6 * duration and (not kept or t > kept[-1] + 1e-6 * duration):
+            kept.append(t)
+    times = kept
     if times[-1] != end:
         times.append(end)
     # readout times must be non-zero: drop an intermediate zero, shift is not allowed (E and S are fixed)
